@@ -3,5 +3,6 @@ CONSTANTS
   N = 3
   C = 2
   CountFirst = FALSE
+  EarlyAccept = FALSE
 CONSTRAINT Emit
 CHECK_DEADLOCK FALSE
